@@ -4,8 +4,8 @@ namespace SdnsVerif.Gen.C07
 def compare_suffix_probe : List Nat := [2, 2, 2, 1, 0, 1, 1, 2, 2, 1, 0, 2]
 def in_zone_probe : List Bool := [true, true, true, false, false, false, false, true, true, false, true, false]
 def progressing_probe : List Bool := [true, false, false, false, false, false, false, false, true, false, true, false]
-def question_match_probe : List Bool := [true, true, false, false, false, false, false, false]
-def shape_addresses_built_only_by_usableAddr : Bool := false
+def question_match_probe : List Bool := [true, true, false, false, false, false, true, false]
+def shape_addresses_built_only_by_usableAddr : Bool := true
 def shape_answer_clears_sections : Bool := true
 def shape_answer_filters_before_splice : Bool := true
 def shape_checkhosts_uses_filtered_lookups : Bool := true
@@ -16,7 +16,7 @@ def shape_level_is_zone_depth : Bool := true
 def shape_lookup_applies_rule : Bool := true
 def shape_nsaddr_lookups_use_searchAddrs : Bool := true
 def shape_store_filters_before_entry : Bool := true
-def usable_local_probe : List Bool := [false, true, false, false, false]
+def usable_local_probe : List Bool := [false, false, false, false, false]
 def usable_loopback_probe : List Bool := [false, false, false, false, false, false]
 def usable_public_probe : Bool := true
 
